@@ -325,7 +325,7 @@ theorem absOver_of_clean {t : List Leaf} {s : State} (h : ∀ k, baseGet t k = a
   unfold abs absOver
   by_cases hg : s.grave.contains k = true
   · simp only [hg, if_true]
-  · simp only [hg, if_false]
+  · simp only [hg]
     exact or_absorb _ _
 
 theorem inv_checkpoint {s : State} (hs : Inv s) : Inv (checkpoint s) ∧ abs (checkpoint s) = abs s := by
@@ -443,6 +443,9 @@ def OpOk : Op → Prop
   | .add _ t _ _ => inRange t = true
   | .update _ t _ _ => inRange t = true
   | _ => True
+
+instance (op : Op) : Decidable (OpOk op) := by
+  cases op <;> (unfold OpOk; infer_instance)
 
 theorem apply_remove (s : State) (k : Key) (t : Text) : apply s (.remove k t) = removeSt s (k, t) := rfl
 
